@@ -62,9 +62,9 @@ def check_C15(rep, known):
     mc_job(rep, 'MC_Bernstein', 'MC_Bernstein.cfg')
     # schemes without a polynomial guarantee must be rejected (fault catalogue entry inf_no_guarantee)
     recs, st = tlc.generate('ScenFault', 'ScenFault.cfg', 'C20', rep.tier, rep.seed, parts=1)
-    recs = [r for r in recs if r['sc']['fault'] == 'inf_no_guarantee']
+    recs = [r for r in recs if r['sc']['fault'] in ('inf_no_guarantee', 'inf_nonpolynomial')]
     outs = engine.pool_map('faults', 'replay', recs)
-    engine.process_results(rep, recs, outs, [r'C20\.inf_no_guarantee'], known)
+    engine.process_results(rep, recs, outs, [r'C20\.inf_no'], known)
 
 
 def check_C08(rep, known):
@@ -261,10 +261,12 @@ def check_C19(rep, known):
     import random
     rng = random.Random(rep.seed)
     n = 3000 if rep.tier == 'thorough' else 320
+    cat = [r for r in recs if r['sc']['cat']]
+    recs = [r for r in recs if not r['sc']['cat']]
     plain = [r for r in recs if not r['sc']['scaled'] and not r['sc']['multi']]
     scaled = [r for r in recs if r['sc']['scaled']]
     multi = [r for r in recs if r['sc']['multi']]
-    recs = rng.sample(plain, min(n, len(plain))) + rng.sample(scaled, min(n // 3, len(scaled))) + rng.sample(multi, min(n // 3, len(multi)))
+    recs = rng.sample(plain, min(n, len(plain))) + rng.sample(scaled, min(n // 3, len(scaled))) + rng.sample(multi, min(n // 3, len(multi))) + rng.sample(cat, min(n // 4, len(cat)))
     outs = engine.pool_map('funs', 'replay', recs)
     engine.process_results(rep, recs, outs, [r'C19\.'], known)
 
